@@ -193,10 +193,11 @@ Theorem block_handlers_in_place : forall sel f trunc, In (sel, f, trunc) block_h
     mw_balance w' = mw_balance w /\ mw_storage w' = mw_storage w /\ mw_code w' = mw_code w.
 Proof.
   intros sel f trunc Hin w x. unfold block_handlers in Hin. cbn [In] in Hin.
-  repeat (destruct Hin as [Hin|Hin];
-          [inversion Hin; subst; clear Hin; eexists; eexists; eexists;
-           split; [reflexivity|split; [reflexivity|split; [reflexivity|repeat split]]]|]).
-  destruct Hin.
+  (* six arms (block_handlers_cover); a [reflexivity] that fails here names the arm of
+     hevm_cheat_code.handle that no longer assigns the attribute the model's cheat sets *)
+  destruct Hin as [Hin|[Hin|[Hin|[Hin|[Hin|[Hin|[]]]]]]];
+    inversion Hin; subst; clear Hin; eexists; eexists; eexists;
+    (split; [reflexivity|split; [reflexivity|split; [reflexivity|split; [reflexivity|repeat split]]]]).
 Qed.
 
 Lemma block_handlers_cover :
